@@ -222,6 +222,15 @@ type syncState struct {
 	// a checkpoint. This prevents issue #997 where PASSIVE checkpoints
 	// trigger a feedback loop because stale file size exceeds threshold.
 	lastSyncedWALOffset int64
+
+	// checkpointUnresolved is set when a non-PASSIVE checkpoint was executed
+	// but its follow-up (sequence bump, copy of the frames it backfilled,
+	// boundary snapshot) failed. Such a checkpoint has no write barrier, so
+	// the database file may already hold transactions that were never copied
+	// (and a TRUNCATE may have discarded their frames). Until a snapshot sync
+	// has re-based the replica, the replicated position does not describe the
+	// database file: no snapshot may be served and the next sync snapshots.
+	checkpointUnresolved bool
 }
 
 type syncExecutor struct {
@@ -1403,6 +1412,9 @@ func (db *DB) verifyAndSyncWithExecutor(ctx context.Context, checkpointing bool,
 	if err != nil {
 		return syncResult{}, fmt.Errorf("sync: %w", err)
 	}
+	if info.snapshotting {
+		exec.state.checkpointUnresolved = false
+	}
 
 	result.origWALSize = origWALSize
 	return result, nil
@@ -1724,6 +1736,13 @@ func (db *DB) verifyWithExecutor(ctx context.Context, exec *syncExecutor) (info 
 	info.salt1 = dec.Header().WALSalt1
 	info.salt2 = dec.Header().WALSalt2
 	info.prevCommit = dec.Header().Commit
+
+	// A checkpoint that failed after it ran may have moved uncopied
+	// transactions into the database file: re-base with a snapshot.
+	if exec.state.checkpointUnresolved {
+		info.reason = "previous checkpoint failed after it ran, snapshotting"
+		return info, nil
+	}
 
 	// If LTX WAL offset is larger than real WAL then the WAL has been truncated.
 	if fi, err := os.Stat(db.WALPath()); err != nil {
@@ -2477,6 +2496,7 @@ func (db *DB) checkpoint(ctx context.Context, mode string, state *syncState) err
 		pos:   pos,
 	}
 	if _, err := db.checkpointWithExecutor(ctx, mode, exec); err != nil {
+		state.checkpointUnresolved = state.checkpointUnresolved || exec.state.checkpointUnresolved
 		return err
 	}
 
@@ -2576,6 +2596,17 @@ func (db *DB) checkpointWithExecutor(ctx context.Context, mode string, exec *syn
 			s.checkpointMode = mode
 			s.lastSyncedWALOffset = exec.state.lastSyncedWALOffset
 		})
+	if mode != CheckpointModePassive {
+		// No write barrier: from here on the checkpoint may backfill frames
+		// that have not been copied. Every successful exit below copies them
+		// (or takes the boundary snapshot); an error exit must not leave the
+		// replicated position silently behind the database file.
+		defer func() {
+			if err != nil {
+				exec.state.checkpointUnresolved = true
+			}
+		}()
+	}
 	walFrameN, err := db.execCheckpoint(ctx, mode)
 	if err != nil {
 		return false, err
@@ -2799,6 +2830,11 @@ func (db *DB) snapshotPosition(ctx context.Context) (*snapshotReadPosition, erro
 	}
 	if err != nil {
 		return nil, fmt.Errorf("pos: %w", err)
+	}
+
+	// db.syncState is only written under execSem, which is held here.
+	if db.syncState.checkpointUnresolved {
+		return nil, &DBNotReadyError{Reason: "a checkpoint failed after it ran; waiting for the next sync to re-base the replica"}
 	}
 
 	walEndOffset, err := db.snapshotWALEndOffset(pos)
